@@ -41,6 +41,7 @@ static void on_grace(frg::qs_node *n) {
 }
 
 struct OpReq { std::string op; int n; };
+static long long g_drain_every = 16;
 
 struct Exec {
 	Domain *dom;
@@ -118,8 +119,12 @@ struct Exec {
 		if(budget_left[t] <= 0) {
 			// wind down: leave the domain (offline() is documented as illegal while a period is deferred)
 			if(!online) return false;
+			if(drain_needed()) { r = drain_op(t); return true; }      // fair drain first
 			if(ag->_qs_deferred) {
-				if(!wind_node[t]) { for(int n = 1; n <= nnodes; n++) if(!node_used[n]) { node_used[n] = 1; wind_node[t] = n; r = {"await", n}; return true; } }
+				// a deferred agent gets out by registering a callback of its own (up to four times: other agents' drain can
+				// leave it the last acknowledger again before it has left)
+				if(wind_node[t] < 4 && !wind_awaited[t]) { for(int n = 1; n <= nnodes; n++) if(!node_used[n]) { node_used[n] = 1; wind_node[t]++; wind_awaited[t] = 1; r = {"await", n}; return true; } }
+				wind_awaited[t] = 0;      // one quiescent state (which resumes the deferred period) before registering again
 				r = {"qs", 0}; return true;
 			}
 			r = {"offline", 0}; return true;
@@ -130,14 +135,53 @@ struct Exec {
 			if(!online) { if(joins[t] < 3) { joins[t]++; r = {"online", 0}; return true; } if(ag && !ag->_pending.empty()) { r = {"run", 0}; return true; } return false; }
 			if(k < 45) { r = {"qs", 0}; return true; }
 			if(k < 65) { r = {"run", 0}; return true; }
-			if(k < 80) { for(int n = 1; n <= nnodes - nagents; n++) if(!node_used[n]) { node_used[n] = 1; r = {"await", n}; return true; } continue; }
+			if(k < 80) { for(int n = 1; n <= nnodes - 4 * nagents; n++) if(!node_used[n]) { node_used[n] = 1; r = {"await", n}; return true; } continue; }
 			if(k < 88) { if(!ag->_qs_deferred) { r = {"offline", 0}; return true; } continue; }
 			if(k < 93 && allow_barrier) { r = {"barrier", 0}; return true; }
 		}
 		r = {"qs", 0}; return true;
 	}
-	std::vector<int> budget_left, joins, wind_node;
+	std::vector<int> budget_left, joins, wind_node, wind_awaited;
 	bool allow_barrier = true;
+
+	// ---- fair drain ("with fair agents every callback eventually runs") ------------------------------------------------
+	// After the scripted / random part, every online agent keeps passing quiescent states and every online owner keeps
+	// calling run() while an ONLINE agent still has a pending callback.  A round is complete when every online agent has
+	// finished a quiescent_state() and every online owner a run() since the round began.  By the protocol each round ends
+	// a period or starts the next one, a callback needs two periods and one run(): eight complete rounds without the
+	// callback firing is starvation (event Starved).  Offline owners are left out (nobody is obliged to run them).
+	std::vector<int> qs_in_round, run_in_round, completed, drain_toggle, in_call;
+	int rounds = 0; bool starved = false;
+	bool is_online(int t) const { return agent[t] && agent[t]->_acked_qs_counter != 0; }
+	// (the node an agent registers only to get out of a deferred period before leaving is not waited for)
+	bool has_pending(int t) const { return agent[t] && !agent[t]->_pending.empty() && !wind_node[t]; }
+	bool drain_needed() const { if(starved) return false; for(int t = 0; t < nagents; t++) if(is_online(t) && has_pending(t)) return true; return false; }
+	void note_call(int t, const std::string &op) {
+		completed[t]++;
+		if(op == "await") { rounds = 0; std::fill(qs_in_round.begin(), qs_in_round.end(), 0); std::fill(run_in_round.begin(), run_in_round.end(), 0); return; }
+		if(op == "qs") qs_in_round[t] = 1;
+		if(op == "run") run_in_round[t] = 1;
+		// participants of a round: every agent that is online or in the middle of a call (e.g. half-way through online():
+		// the domain already counts it); an agent whose thread simply has not been scheduled yet makes the round wait
+		bool full = false;
+		for(int u = 0; u < nagents; u++) if(is_online(u)) full = true;
+		for(int u = 0; u < nagents && full; u++) {
+			bool part = is_online(u) || (u != t && in_call[u]);
+			if(part && (!qs_in_round[u] || (has_pending(u) && !run_in_round[u]))) full = false;
+		}
+		if(full) {
+			rounds++;
+			std::fill(qs_in_round.begin(), qs_in_round.end(), 0); std::fill(run_in_round.begin(), run_in_round.end(), 0);
+			if(rounds >= 8 && drain_needed()) {
+				std::vector<long long> pend;
+				for(int n = 1; n <= nnodes; n++) if(g_nodes[n] && !g_nodes[n]->poisoned && g_nodes[n]->node._target_qs_counter) pend.push_back(n);
+				Ev("Starved").i("rounds", rounds).raw("pending", jarr(pend)).emit();
+				starved = true;
+			}
+		}
+	}
+	// the next call of agent t during the drain
+	OpReq drain_op(int t) { drain_toggle[t] ^= 1; if(has_pending(t) && drain_toggle[t]) return {"run", 0}; return {"qs", 0}; }
 };
 
 static void execute(int nagents, int nnodes, const J *schedule, long long seed, int budget, bool barriers) {
@@ -151,8 +195,9 @@ static void execute(int nagents, int nnodes, const J *schedule, long long seed, 
 	ex.dom = &dom; ex.nagents = nagents; ex.nnodes = nnodes;
 	ex.queue.resize(nagents); ex.agent.assign(nagents, nullptr); ex.store.resize(nagents);
 	ex.node_used.assign(nnodes + 1, 0);
-	ex.budget_left.assign(nagents, budget); ex.joins.assign(nagents, 0); ex.wind_node.assign(nagents, 0);
+	ex.budget_left.assign(nagents, budget); ex.joins.assign(nagents, 0); ex.wind_node.assign(nagents, 0); ex.wind_awaited.assign(nagents, 0);
 	ex.allow_barrier = barriers;
+	ex.qs_in_round.assign(nagents, 0); ex.run_in_round.assign(nagents, 0); ex.completed.assign(nagents, 0); ex.drain_toggle.assign(nagents, 0); ex.in_call.assign(nagents, 0);
 	for(int t = 0; t < nagents; t++) ex.rngs.emplace_back(seed * 131 + t);
 	for(int i = 1; i <= nnodes; i++) { g_nodes[i] = new NodeBox(); g_nodes[i]->id = i; g_nodes[i]->poisoned = 0; g_nodes[i]->node.on_grace_period = on_grace; }
 	Ev("Reset").i("agents", nagents).i("nodes", nnodes).emit();
@@ -163,11 +208,15 @@ static void execute(int nagents, int nnodes, const J *schedule, long long seed, 
 			OpReq r;
 			if(ex.scripted) {
 				while(ex.queue[t].empty()) seam_yield(0);   // parked: the schedule gave this agent no call
+				ex.in_call[t] = 1;
 				r = ex.queue[t].front(); ex.queue[t].pop_front();
 			} else {
 				if(!ex.pick(t, r)) break;
+				ex.in_call[t] = 1;
 			}
 			ex.do_op(t, r);
+			ex.note_call(t, r.op);
+			ex.in_call[t] = 0;
 			if(Sched::cur()) Sched::cur()->progress++;   // a completed API call is progress
 		}
 		Ev("AgentDone").i("a", t + 1).emit();
@@ -179,6 +228,25 @@ static void execute(int nagents, int nnodes, const J *schedule, long long seed, 
 			std::string op = e.string("op");
 			if(!op.empty()) ex.queue[t].push_back({op, (int)e.num("n")});
 			s.step(t);
+		}
+		// fair drain after the scripted part: first let every agent finish the call it is in, then whole calls round-robin
+		// (tour replays: every g_drain_every-th execution only - the drain multiplies the trace length)
+		static long long exec_no = 0;
+		bool clean = (exec_no++ % g_drain_every) == 0;
+		for(int t = 0; t < nagents && clean; t++) {
+			long guard = 0;
+			while(!ex.queue[t].empty() || ex.in_call[t]) { s.step(t); if(++guard > 20000 || s.is_done(t)) { clean = false; break; } }
+		}
+		for(int round = 0; clean && round < 12 && ex.drain_needed(); round++) {
+			for(int t = 0; t < nagents && clean; t++) {
+				if(!ex.is_online(t)) continue;
+				for(int k = 0; k < (ex.has_pending(t) ? 2 : 1) && clean; k++) {
+					int before = ex.completed[t];
+					ex.queue[t].push_back(ex.drain_op(t));
+					long guard = 0;
+					while(ex.completed[t] == before) { s.step(t); if(++guard > 20000 || s.is_done(t)) { clean = false; break; } }
+				}
+			}
 		}
 	} else {
 		Rng rng(seed);
@@ -202,11 +270,12 @@ int main(int argc, char **argv) {
 	Args a(argc, argv);
 	install_terminate();
 	int nagents = a.num("agents", 2), nnodes = a.num("nodes", 2);
+	g_drain_every = a.num("drainevery", 16);
 	long long from = a.num("from", 0);
 	if(a.has("random")) {
 		long long n = a.num("random", 10);
 		for(long long i = 0; i < n; i++) {
-			if(i >= from) execute(nagents, nnodes + nagents, nullptr, a.num("seed", 1) * 7919 + i, a.num("budget", 12), !a.has("nobarrier"));
+			if(i >= from) execute(nagents, nnodes + 4 * nagents, nullptr, a.num("seed", 1) * 7919 + i, a.num("budget", 12), !a.has("nobarrier"));
 			hist_done(i);
 		}
 		return 0;
